@@ -12,7 +12,7 @@ Ltac Zify.zify_post_hook ::= Z.div_mod_to_equations.
 Definition connect_inv (c : connect) : Prop :=
   c_version c = c_level c /\ (c_level c = 3 \/ c_level c = 4 \/ c_level c = 5)
   /\ proto_name (c_level c) = Some (c_pname c)
-  /\ c_wqos c <= 3
+  /\ c_wqos c <= 2
   /\ (c_wflag c = false -> c_wqos c = 0 /\ c_wretain c = false /\ c_wtopic c = [] /\ c_wmsg c = [])
   /\ c_keepalive c < 65536 /\ istr_ok (c_cid c) = true
   /\ (is_v3x (c_level c) = true -> c_cid c = [] -> c_clean c = true)
@@ -22,7 +22,7 @@ Definition connect_inv (c : connect) : Prop :=
       else c_props c = None /\ c_wprops c = None)
   /\ (c_wflag c = true -> istr_ok (c_wtopic c) = true /\ len (c_wmsg c) <= 65535)
   /\ (if c_uflag c then istr_ok (c_user c) = true else c_user c = [])
-  /\ (if c_pflag c then istr_ok (c_pass c) = true else c_pass c = []).
+  /\ (if c_pflag c then len (c_pass c) <= 65535 else c_pass c = []).
 
 Lemma will_inv_empty : will_inv props_empty.
 Proof.
@@ -47,6 +47,15 @@ Proof.
   - inversion H; subst. auto.
 Qed.
 
+Lemma opt_binary_dec : forall (flag : bool) b s b',
+  (if flag then read_utf8_string false b else Ok ([], b)) = Ok (s, b') -> bytes_ok b ->
+  (if flag then len s <= 65535 else s = []) /\ bytes_ok b'.
+Proof.
+  intros flag b s b' H Hb. destruct flag.
+  - apply read_utf8_string_inv in H; [|assumption]. tauto.
+  - inversion H; subst. auto.
+Qed.
+
 Lemma parse_connect_inv : forall b body,
   parse_connect b = Ok body -> bytes_ok b -> exists c, body = BConnect c /\ connect_inv c.
 Proof.
@@ -62,6 +71,7 @@ Proof.
   apply read_byte_inv in E3; [|assumption]. destruct E3 as (_ & Hb3 & _).
   destruct (negb (N.land 1 flags =? 0)); [discriminate|].
   destruct (negb (bit flags 2) && negb (N.land 3 (N.shiftr flags 3) =? 0)) eqn:C1; [discriminate|].
+  destruct (2 <? N.land 3 (N.shiftr flags 3)) eqn:C0; [discriminate|].
   destruct (negb (bit flags 2) && bit flags 5) eqn:C2; [discriminate|].
   destruct (read_uint16 b3) as [[ka b4]| | |] eqn:E4; cbn [remap bind] in H; try discriminate.
   apply read_uint16_inv in E4; [|assumption]. destruct E4 as [Hka Hb4].
@@ -102,14 +112,14 @@ Proof.
   destruct (if bit flags 7 then _ else _) as [[user b8]| | |] eqn:E8; cbn [bind] in H; try discriminate.
   apply opt_string_dec in E8; [|assumption]. destruct E8 as [Huser Hb8].
   destruct (if bit flags 6 then _ else _) as [[pass b9]| | |] eqn:E9; cbn [bind] in H; try discriminate.
-  apply opt_string_dec in E9; [|assumption]. destruct E9 as [Hpass Hb9].
+  apply opt_binary_dec in E9; [|assumption]. destruct E9 as [Hpass Hb9].
   apply ok_inj in H. subst body. eexists. split; [reflexivity|].
   unfold connect_inv. cbn [c_version c_level c_uflag c_pname c_pflag c_wretain c_wqos c_wflag c_wtopic c_wmsg c_clean
                           c_keepalive c_cid c_user c_pass c_props c_wprops].
   split; [reflexivity|].
   split. { unfold proto_name in Epn. destruct (N.eqb_spec level 3); [auto|]. destruct (N.eqb_spec level 4); [auto|].
            destruct (N.eqb_spec level 5); [auto|]. cbn in Epn. discriminate. }
-  split; [assumption|]. split; [apply land3_le|].
+  split; [assumption|]. split; [lia|].
   split. { intros Hwf. rewrite Hwf in *. cbn [negb andb] in C1, C2. destruct (Hwill0 eq_refl) as (-> & -> & _).
            repeat split; try reflexivity; try assumption; lia. }
   split; [assumption|]. split; [unfold istr_ok; rewrite Hcu by reflexivity; lia|].
@@ -149,21 +159,29 @@ Lemma opt_string_enc : forall (flag : bool) s,
   (if flag then encode_utf8_string s else Ok []) = Ok (if flag then put_bin s else []).
 Proof. intros [|] s H; [apply encode_utf8_string_ok, istr_ok_len, H|reflexivity]. Qed.
 
+Lemma opt_binary_rt : forall (flag : bool) s rest,
+  (if flag then len s <= 65535 else s = []) ->
+  (if flag then read_utf8_string false ((if flag then put_bin s else []) ++ rest) else Ok ([], (if flag then put_bin s else []) ++ rest))
+  = Ok (s, rest).
+Proof. intros [|] s rest H; [apply read_utf8_string_put_bin; [assumption|discriminate]|subst; reflexivity]. Qed.
+Lemma opt_binary_enc : forall (flag : bool) s,
+  (if flag then len s <= 65535 else s = []) ->
+  (if flag then encode_utf8_string s else Ok []) = Ok (if flag then put_bin s else []).
+Proof. intros [|] s H; [apply encode_utf8_string_ok, H|reflexivity]. Qed.
+
 Lemma rt_connect : forall c ty fl bytes,
-  connect_inv c -> c_level c <> 3 -> c_wqos c <> 3 ->
+  connect_inv c ->
   pack_body (BConnect c) = Ok (ty, fl, bytes) -> len bytes < BIG ->
   ty = CONNECT /\ fl = 0 /\ parse_connect bytes = Ok (BConnect c).
 Proof.
   intros c ty fl bytes (Hver & Hlev & Hpn & Hwq & Hnowill & Hka & Hcid & Hv3 & Hprops & Hwill & Huser & Hpass)
-         Hl3 Hq3 Hpack Hlen.
+         Hpack Hlen.
   destruct c as [version level uflag pname pflag wretain wqos wflag wtopic wmsg clean keepalive cid user pass props wprops].
   cbn [c_version c_level c_uflag c_pname c_pflag c_wretain c_wqos c_wflag c_wtopic c_wmsg c_clean
        c_keepalive c_cid c_user c_pass c_props c_wprops] in *.
   subst version.
-  assert (Hlev' : level = 4 \/ level = 5) by tauto. clear Hlev.
-  assert (Hname : pname = MQTT_NAME).
-  { destruct Hlev' as [ -> | -> ]; cbn in Hpn; congruence. }
-  subst pname. clear Hpn.
+  assert (Hnamelen : len pname <= 65535).
+  { unfold proto_name in Hpn. destruct Hlev as [ -> | [ -> | -> ] ]; cbn in Hpn; inversion Hpn; cbn; lia. }
   (* the will block *)
   set (wpb := if level =? 5 then will_props_pack wprops else []) in *.
   assert (Hwenc : (if wflag then
@@ -177,23 +195,22 @@ Proof.
   rewrite (encode_utf8_string_ok cid) in Hpack by (apply istr_ok_len; assumption). cbn [bind] in Hpack.
   rewrite Hwenc in Hpack. cbn [bind] in Hpack.
   rewrite (opt_string_enc uflag user Huser) in Hpack. cbn [bind] in Hpack.
-  rewrite (opt_string_enc pflag pass Hpass) in Hpack. cbn [bind] in Hpack.
+  rewrite (opt_binary_enc pflag pass Hpass) in Hpack. cbn [bind] in Hpack.
   apply ok3_inj in Hpack. destruct Hpack as (<- & <- & <-).
   split; [reflexivity|]. split; [reflexivity|].
   fold (conn_flags uflag pflag wretain wqos wflag clean) in *.
-  destruct (conn_flags_rt uflag pflag wretain wqos wflag clean ltac:(lia)) as (F0 & F1 & F2 & F3 & F5 & F6 & F7).
+  destruct (conn_flags_rt uflag pflag wretain wqos wflag clean Hwq) as (F0 & F1 & F2 & F3 & F5 & F6 & F7).
   rewrite <- !app_assoc in *.
   unfold parse_connect.
-  change ([0; 4] ++ MQTT_NAME ++ ?r) with (put_bin MQTT_NAME ++ r).
-  rewrite read_utf8_string_put_bin by (cbn; try lia; discriminate). cbn [bind app read_byte remap].
-  assert (Hpn : proto_name level = Some MQTT_NAME) by (destruct Hlev' as [ -> | -> ]; reflexivity).
+  rewrite read_utf8_string_put_bin by (try assumption; discriminate). cbn [bind app read_byte remap].
   rewrite Hpn. rewrite str_eqb_refl. cbn [negb].
   rewrite F0, F1, F2, F3, F5, F6, F7. cbn [N.eqb negb].
   assert (C1 : negb wflag && negb (wqos =? 0) = false).
   { destruct wflag; [reflexivity|]. destruct (Hnowill eq_refl) as (-> & _). reflexivity. }
   assert (C2 : negb wflag && wretain = false).
   { destruct wflag; [reflexivity|]. destruct (Hnowill eq_refl) as (_ & -> & _). reflexivity. }
-  rewrite C1, C2. rewrite read_uint16_put16 by assumption. cbn [remap bind].
+  rewrite C1, C2. replace (2 <? wqos) with false by lia.
+  rewrite read_uint16_put16 by assumption. cbn [remap bind].
   (* CONNECT properties *)
   assert (Hp5 : (if level =? 5 then do '(p, b') <- props_unpack CONNECT ((if level =? 5 then props_pack props else []) ++
                       put_bin cid ++ (if wflag then wpb ++ put_bin wtopic ++ put_bin wmsg else []) ++
@@ -246,5 +263,5 @@ Proof.
   rewrite Hw. cbn [bind].
   rewrite (opt_string_rt uflag user _ Huser). cbn [bind].
   rewrite <- (app_nil_r (if pflag then put_bin pass else [])).
-  rewrite (opt_string_rt pflag pass [] Hpass). cbn [bind]. reflexivity.
+  rewrite (opt_binary_rt pflag pass [] Hpass). cbn [bind]. reflexivity.
 Qed.
